@@ -360,6 +360,15 @@ def rule_r5(ctx):
                     why = f"the operand is returned unchanged, but '{OPNAME.get(opcls, '?')}' has no identity operand (x // 1 is floor(x))"
             ctx.check("R5", inst, ok, f, r, why or "operator/operand mismatch",
                       how="operator class and operand order compared with the dunder's name")
+    # an integer may stand on either side: every binary operator the class defines has its reflected twin
+    for name in DUNDER:
+        if name.startswith("__r") or name not in sd.methods:
+            continue
+        twin = "__r" + name[2:]
+        ctx.check("R5", f"SymbolicDim.{name} has the reflected method {twin}", twin in sd.methods, sd.methods[name], sd.methods[name].node,
+                  f"SymbolicDim defines {name} but not {twin}: `7 {OPNAME.get(DUNDER[name], '?')} dim` raises TypeError although the integer operand is "
+                  "accepted on the right-hand side",
+                  how="plain and reflected arithmetic methods of the class", construct=f"missing {twin}")
     f = sd.methods.get("__neg__")
     if f is not None:
         ok = any(isinstance(n, ast.UnaryOp) and isinstance(n.op, ast.USub) and norm(n.operand) == "self._expr" for n in own_nodes(f.node))
